@@ -1,7 +1,7 @@
-CONSTANT NtNVersions = {7, 8, 9, 10, 11, 12, 13, 14, 15}
-CONSTANT NtCVersions = {9, 10, 11, 12, 13, 14, 15, 16, 17, 18, 19, 20, 21}
+CONSTANT NtNVersions = {9, 10, 13}
+CONSTANT NtCVersions = {12}
 CONSTANT DMQVersions = {1}
-CONSTANT ExtraIds = {11, 99}
+CONSTANT ExtraIds = {99}
 CONSTANT Design = "dropid"
 CONSTANT LkaOffKinds = {"ntn"}
 CONSTANT LkaOffFull = FALSE
@@ -13,6 +13,6 @@ INVARIANT MachineMatchesOutcome
 INVARIANT InitiatorOnlyNeverDeliversRequest
 INVARIANT ResponderOnlyNeverDeliversResponse
 INVARIANT StartedIffEnabled
+INVARIANT StopRemovesExactlyThatPair
 INVARIANT EnabledIsReachable
 INVARIANT LocalOptInOnlyAffectsOwnInitiator
-INVARIANT StopRemovesExactlyThatPair
